@@ -23,11 +23,12 @@ def U(msg):
 class IterLstCell(Cell):
     """list of n new generator iterators (see the module docstring)"""
 
-    def __init__(self, contents, cursors):
-        self.contents, self.cursors = contents, cursors
+    def __init__(self, contents, cursors, makers=None):
+        # makers (optional, term of sort Lst_Obj): makers[k] is the abstract element whose compute() / run() created iterator k
+        self.contents, self.cursors, self.makers = contents, cursors, makers
 
     def __repr__(self):
-        return "IterLstCell(%s, %s)" % (self.contents, self.cursors)
+        return "IterLstCell(%s, %s, %s)" % (self.contents, self.cursors, self.makers)
 
 
 CONST0 = "((as const (Array Int Int)) 0)"
@@ -51,7 +52,9 @@ def make_iterlst(ip, args, name, st):
     # an iterator never is beyond the end of what it delivers
     st.assume(T("(forall ((%s Int)) (! (and (<= 0 %s) (<= %s %s)) :pattern (%s)))" % (
         k, cur, cur, reg.l_len(at).s, cur), "Bool"))
-    return ip.new_cell(st, IterLstCell(contents, cursors))
+    makers = reg.new(name + "$makers", reg.lst("Obj"))
+    st.assume(EQ(reg.l_len(makers), reg.l_len(contents)))
+    return ip.new_cell(st, IterLstCell(contents, cursors, makers))
 
 
 def cell_of(st, v):
@@ -88,10 +91,34 @@ def iterlst_from_comprehension(ip, st, snap, s2, v, q, n, sample, new_consts, n_
     reg = ip.reg
     item = content_term(ip, snap, s2, sample)
     text = item.s + " " + " ".join(h.s for h in s2.pc[n_pc:])
+    makers = None
     if new_consts and any(name in text for name, _ in new_consts):
         # the item expression introduced unknowns (a deep copy of the sequence per cell): unknowns PER ITEM
         ref = skolem_listcomp(ip, st, snap, s2, v, q, n, Opaque(item), new_consts, n_pc)
         contents = ip.deref(st, ref)
+        # objects the generic item allocates (copy.deepcopy of an element) are allocated anew for EVERY item: the objects
+        # of different items are different objects
+        for cname in s2.notes.get("$new_objs", ()):
+            if cname in snap.notes.get("$new_objs", ()) or not any(cname == nm for nm, _ in new_consts):
+                continue
+            fn = cname[:-1] + "$f|"
+            a, b = "nx%d" % next(ip.bound), "ny%d" % next(ip.bound)
+            st.assume(T("(forall ((%s Int) (%s Int)) (! (=> (and (<= 0 %s) (< %s %s) (<= 0 %s) (< %s %s) (not (= %s %s))) "
+                        "(not (= (%s %s) (%s %s)))) :pattern ((%s %s) (%s %s))))" % (
+                            a, b, a, a, n.s, b, b, n.s, a, b, fn, a, fn, b, fn, a, fn, b), "Bool"))
+        mk = maker_of(item)
+        if mk is not None:
+            # the same substitution as skolem_listcomp: every unknown c of the generic item is the function c$f of the index
+            x = "mk%d" % next(ip.bound)
+            ms = mk.replace(q.s, x)
+            for name, sort in new_consts:
+                if name != q.s and not name.startswith("|dflt:"):
+                    ms = ms.replace(name, "(%s %s)" % (name[:-1] + "$f|", x))
+            makers = reg.new("makers", reg.lst("Obj"))
+            st.assume(EQ(reg.l_len(makers), reg.l_len(contents)))
+            at = reg.l_get(makers, T(x, "Int"))
+            st.assume(T("(forall ((%s Int)) (! (=> (and (<= 0 %s) (< %s %s)) (= %s %s)) :pattern (%s)))" % (
+                x, x, x, n.s, at.s, ms, at.s), "Bool"))
     else:
         for cid, cell in snap.heap.items():
             if s2.heap.get(cid) is not cell:
@@ -114,8 +141,41 @@ def iterlst_from_comprehension(ip, st, snap, s2, v, q, n, sample, new_consts, n_
         contents = materialise(ip, st, cv, sort_of(ip))
         ip.assume_wf(st, contents)
         ref = ip.new_cell(st, LstCell(contents))
-    st.heap[ref.cid] = IterLstCell(contents, T(CONST0, "(Array Int Int)"))
+        if maker_of(item) is not None:
+            def get_maker(i):
+                ip.silent = getattr(ip, "silent", 0) + 1
+                n_exc = len(ip._exc_out)
+                try:
+                    r, s3 = get2(i)
+                    m = maker_of(content_term(ip, snap, s3, r))
+                    if m is None:
+                        raise U("list of iterators: the items are not all made by compute() / run() of an element")
+                    return Opaque(T(m, "Obj"))
+                finally:
+                    ip.silent -= 1
+                    del ip._exc_out[n_exc:]
+            makers = materialise(ip, st, View(v.len, get_maker), reg.lst("Obj"))
+    st.heap[ref.cid] = IterLstCell(contents, T(CONST0, "(Array Int Int)"), makers)
     return ref
+
+
+def maker_of(item):
+    """the element term X when the content term of an iterator is (el_compute X state) / (el_run X input), else None"""
+    for fn in ("(el_compute ", "(el_run "):
+        if item.s.startswith(fn):
+            rest = item.s[len(fn):]
+            if rest.startswith("("):
+                depth = 0
+                for k, ch in enumerate(rest):
+                    depth += ch == "("
+                    depth -= ch == ")"
+                    if depth == 0:
+                        return rest[:k + 1]
+                return None
+            if rest.startswith("|"):
+                return rest[:rest.index("|", 1) + 1]
+            return rest.split(" ", 1)[0]
+    return None
 
 
 # --------------------------------------------------------------------------- [next(g) for g in generators]
@@ -175,7 +235,7 @@ def next_all(ip, st, ref):
     ex.assume(T("(forall ((%s Int)) (=> (and (<= 0 %s) (< %s %s)) %s))" % (k, k, k, k0.s, has_k), "Bool"))
     ex.assume(T("(forall ((%s Int)) (! (= (select %s %s) (ite (and (<= 0 %s) (< %s %s)) (+ (select %s %s) 1) (select %s %s))) "
                 ":pattern ((select %s %s))))" % (k, c2.s, k, k, k, k0.s, cur.s, k, cur.s, k, c2.s, k), "Bool"))
-    ex.heap[ref.cid] = IterLstCell(contents, c2)
+    ex.heap[ref.cid] = IterLstCell(contents, c2, cell.makers)
     if ip.may_catch(ex, "StopIteration"):
         ip.raise_(ex, "StopIteration")
     else:
@@ -191,7 +251,7 @@ def next_all(ip, st, ref):
     c3 = reg.new("cursors", "(Array Int Int)")
     ok.assume(T("(forall ((%s Int)) (! (= (select %s %s) (ite %s (+ (select %s %s) 1) (select %s %s))) "
                 ":pattern ((select %s %s))))" % (k, c3.s, k, rng, cur.s, k, cur.s, k, c3.s, k), "Bool"))
-    ok.heap[ref.cid] = IterLstCell(contents, c3)
+    ok.heap[ref.cid] = IterLstCell(contents, c3, cell.makers)
     outs.append((ok, ip.new_cell(ok, LstCell(r))))
     return outs
 
@@ -219,8 +279,17 @@ def sp_gen_pulled(ip, st, pos, kws):
     return Num(T("(select %s %s)" % (_cell(ip, st, pos[0], "gen_pulled").cursors.s, ip.num(pos[1]).s), "Int"))
 
 
+def sp_gen_maker(ip, st, pos, kws):
+    """gen_maker(gens, k): the abstract element whose compute() / run() created iterator k"""
+    c = _cell(ip, st, pos[0], "gen_maker")
+    if c.makers is None:
+        raise U("gen_maker: the iterators of this list were not made by compute() / run() of abstract elements")
+    return Opaque(ip.reg.l_get(c.makers, ip.num(pos[1])))
+
+
 def register(ix):
-    for name, fn in [("gen_len", sp_gen_len), ("gen_content", sp_gen_content), ("gen_pulled", sp_gen_pulled)]:
+    for name, fn in [("gen_len", sp_gen_len), ("gen_content", sp_gen_content), ("gen_pulled", sp_gen_pulled),
+                     ("gen_maker", sp_gen_maker)]:
         ix.spec_names[name] = fn
 
 
@@ -246,3 +315,129 @@ def iterlst_index(ip, s, cell, ref, i):
     if s2 is None:
         return []
     return [(s2, Ref(ref.cid, (idx,)))]
+
+
+# --------------------------------------------------------------------------- for x in <instance with __iter__ / __next__>
+def for_object(ip, s, st, itv, k, spec):
+    """`for target in obj` where obj is an instance of a repository class: python calls iter(obj) once and next() on the
+    result before every iteration; StopIteration from next() ends the loop.  Both methods go through their contracts:
+    __iter__ must return the object itself (Contract(result_alias="self")), __next__ must be one plain contract whose
+    `modifies` frame lists fields of the object (they are unknown at the loop head).  The loop is cut at its invariant
+    (ghost `_i` = number of completed iterations)."""
+    from .stmts import (set_loop_ghost, ghost_init, check_invariants, havoc_loop, assume_invariants, measure, ghost_body,
+                        end_of_body, assign_to, exec_block)
+    from .calls import apply_contract
+    from .sym import ObjCell
+    cls = st.heap[itv.cid].cls
+    k_iter = ip.contracts.find_method(cls, "__iter__")
+    k_next = ip.contracts.find_method(cls, "__next__")
+    if k_iter is None or k_next is None:
+        raise U("for over an instance of %s: no contracts for __iter__ / __next__" % cls)
+    if k_iter.inline or k_iter.cases or k_iter.result_alias != list(k_iter.params.keys())[0] or k_iter.modifies or k_iter.raises:
+        raise U("for over an instance of %s: __iter__ must be a plain contract that returns the object itself" % cls)
+    if k_next.inline:
+        raise U("for over an instance of %s: __next__ needs a contract (not an inlined helper)" % cls)
+    if spec is None:
+        raise U("loop #%s (for over an instance of %s) needs an invariant" % (k, cls))
+    outs0 = apply_contract(ip, st, k_iter, [itv], {})
+    if len(outs0) != 1 or not (isinstance(outs0[0][1], Ref) and outs0[0][1].cid == itv.cid):
+        raise U("for over an instance of %s: __iter__ does not return the object" % cls)
+    st = outs0[0][0]
+    set_loop_ghost(ip, st, k, I(0))
+    ghost_init(ip, spec, st)
+    check_invariants(ip, k, spec, st, "init")
+    h = st.fork(None, "L%s:" % k)
+    i_t = ip.reg.new("_i%s" % k, "Int")
+    # what the body changes, plus the frame of the next() call made before every iteration (stmts.call_frame)
+    step = ast.Expr(value=ast.Call(func=ast.Name(id="next", ctx=ast.Load()), args=[s.iter], keywords=[]))
+    ast.fix_missing_locations(ast.copy_location(step, s))
+    for n in ast.walk(step):
+        if not hasattr(n, "lineno"):
+            ast.copy_location(n, s)
+    ip.spec_mode += 1
+    try:
+        f = ip.ev1(step.value.func, h)
+    finally:
+        ip.spec_mode -= 1
+    if not (isinstance(f, Fun) and f.kind == "builtin" and f.name == "next"):
+        raise U("for over an instance of %s: the name `next` is re-bound in this function" % cls)
+    havoc_loop(ip, s, h, spec, s.body + [step])
+    h.assume(CMP(">=", i_t, I(0)))
+    set_loop_ghost(ip, h, k, i_t)
+    assume_invariants(ip, spec, h)
+    h.notes["epoch_%s" % k] = getattr(ip, "n_cells", 0)
+    m0 = measure(ip, spec, h)
+    if m0 is None and not ip.c.trusted:
+        ip.assumptions.add("termination of loop #%s of %s not proved (no decreases clause)" % (k, ip.c.name))
+    outs = []
+    n_exc = len(ip._exc_out)
+    saved_catch = h.catching
+    h.catching = saved_catch + ("StopIteration",)
+    results = apply_contract(ip, h, k_next, [itv], {})
+    new_exc = ip._exc_out[n_exc:]
+    ip._exc_out = ip._exc_out[:n_exc]
+    for sx, exc in new_exc:
+        sx.catching = saved_catch
+        if exc.cls == "StopIteration":
+            sx.trace += "X."
+            sx.notes["inloop_%s" % k] = False
+            outs.append(("next", sx, None))
+        else:
+            ip._exc_out.append((sx, exc))
+    for s2, val in results:
+        s2.catching = saved_catch
+        s2.notes["epoch_%s" % k] = getattr(ip, "n_cells", 0)
+        s2.notes["inloop_%s" % k] = True
+        for s3 in assign_to(ip, s.target, val, s2):
+            ghost_body(ip, spec, s3)
+            for kind, s4, payload in exec_block(ip, s.body, s3):
+                if kind in ("next", "continue"):
+                    set_loop_ghost(ip, s4, k, ADD(i_t, I(1)))
+                    end_of_body(ip, k, spec, s4, m0)
+                elif kind == "break":
+                    s4.trace += "B."
+                    s4.notes["inloop_%s" % k] = False
+                    outs.append(("next", s4, None))
+                else:
+                    outs.append((kind, s4, payload))
+    return outs
+
+
+# --------------------------------------------------------------------------- forking item expressions of a comprehension
+def merge_scalar_outcomes(ip, st, outs):
+    """the alternatives of the item expression of a comprehension of symbolic length (no forking possible there), e.g.
+    lena.flow.get_data of an abstract flow value (a (data, context) pair or bare data): when every alternative leaves
+    everything that existed untouched (heap cells, bindings, ghost notes other than the cache of value-context cells) and
+    its value is a plain term (a number, a flow value, ... -- nothing that could refer to an object the alternative
+    created), the alternatives differ only in path condition and value: ONE outcome in the caller's state, the value an
+    if-then-else.  Facts the alternatives established are dropped (sound: less is known).  None when not of this form."""
+    from .interp import Unsupported
+    n0 = len(st.pc)
+    alts = []
+    for s3, v in outs:
+        if not (isinstance(v, (Num, Bool)) or (isinstance(v, Opaque) and v.sort in ("V", "Key", "Val"))):
+            return None
+        if any(s3.heap.get(k) is not c for k, c in st.heap.items()):
+            return None
+        if set(s3.env) != set(st.env) or any(s3.env[k] is not st.env[k] for k in st.env):
+            return None
+        keys = (set(s3.notes) | set(st.notes)) - {"vctx"}
+        if any(k not in s3.notes or k not in st.notes or s3.notes[k] is not st.notes[k] and s3.notes[k] != st.notes[k] for k in keys):
+            return None
+        if len(s3.pc) < n0 or any(a is not b for a, b in zip(s3.pc[:n0], st.pc)):
+            return None
+        alts.append((AND(*s3.pc[n0:]), v))
+    res = alts[-1][1]
+    try:
+        for c, v in reversed(alts[:-1]):
+            res = ip.ite_sv(c, v, res)
+    except Unsupported:
+        return None
+    return [(st, res)]
+
+
+def havoc_iterlst(ip, st, ref, name):
+    """the list object gets unknown content (calls.havoc_value): some list of generators at some positions"""
+    fresh = make_iterlst(ip, ["V"], name, st)
+    st.heap[ref.cid] = st.heap.pop(fresh.cid)
+    return ref
